@@ -619,3 +619,24 @@ def assigns_field(owner, field):
         fields = [p for p in st[1][1] if isinstance(p, list) and p[0] == "f"]
         return bool(fields) and fields[-1][2] == field and fields[-1][3] == owner
     return sp
+
+
+def derives_from_local(fn, op, local, max_nodes=200):
+    """Is `local` in the backward data-flow closure of the operand?"""
+    d = C.defs(fn)
+    seen = set()
+    stack = list(operand_locals(op))
+    n = 0
+    while stack and n < max_nodes:
+        l = stack.pop()
+        if l == local:
+            return True
+        if l in seen:
+            continue
+        seen.add(l)
+        n += 1
+        for df in d.get(l, []):
+            if df[0] in ("=", "partial"):
+                for o in rvalue_operands(df[3]):
+                    stack.extend(operand_locals(o))
+    return False
